@@ -383,6 +383,218 @@ Theorem C13_sign_verify_unknown_canonicaliser_refuted :
 Proof. exact P_SignVerify.SVExample.unknown_canonicaliser_refuted. Qed.
 Print Assumptions C13_sign_verify_unknown_canonicaliser_refuted.
 
+(* ================================================================ the signer's own DigestValue / SignatureValue (Signer.v)
+   Signer.signer_crypto is goxmldsig's ConstructSignature(el, true) as far as the two cryptographic texts go: DigestValue =
+   base64 (digest (canonical bytes of the element)), the SignedInfo element, NSDetatch'ed in the context default + el +
+   <ds:Signature xmlns:ds> (pushed ONCE; the verifier pushes it twice), canonicalised by the context's canonicaliser object
+   (the exclusive ones with their prefix list), hashed and signed.  Canonicaliser = Canon.canon_model; digest and sign are
+   oracles.  The correspondence run (case sets C13_modelledNN) evaluates it against the real library: digest and signature
+   tables captured from the real run, message bytes equal byte for byte. *)
+From V Require Canon Signer P_Signer.
+
+(* (a) for every signable element, signing context whose canonicaliser identifier goxmldsig's verifier knows and names the
+   canonicaliser object the signer runs, one embedded certificate, ANY DigestValue / SignatureValue texts (non-empty): the
+   canonical SignedInfo bytes the signer signs (Signer.signer_si_bytes: its own NSDetatch + Canonicalize) are the bytes the
+   verifier recomputes (Dsig.canonical_signed_info on what findSignature leaves behind), canonicalisers = Canon.canon_model.
+   Covers c14n 1.1 / c14n 1.0 (which the verifier prepares as c14n 1.1) / exclusive without prefix list, each with and
+   without comments, and the declaration sets samlp+saml, saml+samlp, samlp of P_SignVerify.signable. *)
+Theorem C13_signer_signs_what_verifier_checks :
+  forall (cx : sign_ctx) (el : node) (dv sv : string) (el' sg signed : node) (sm der : string),
+    construct_signature cx el (Ok (dv, sv)) = ORet (Ok (el', sg)) ->
+    sign_placement el' sg = ORet (Ok signed) ->
+    P_SignVerify.signable el' = true ->
+    In (canon_id (cx_canon cx)) P_SignVerify.c14n_ids ->
+    Signer.canon_alg_of (cx_canon cx) = Signer.id_alg (canon_id (cx_canon cx)) ->
+    ctx_certs (cx_keys cx) = Ok [der] -> der <> "" -> dv <> "" -> sv <> "" ->
+    P_SignVerify.declared_method cx = Some sm ->
+    exists (root' : node) (f : Dsig.found_sig) (sib : string),
+      Dsig.find_signature signed = Ok (root', f) /\
+      Signer.signer_si_bytes Canon.canon_model cx sm el' dv = Ok sib /\
+      Dsig.canonical_signed_info Canon.canon_model root' f = Ok sib.
+Proof. exact P_Signer.signer_signs_what_verifier_checks. Qed.
+Print Assumptions C13_signer_signs_what_verifier_checks.
+
+(* (a) by evaluation on a built AuthnRequest signed by the modelled signer, per canonicaliser; a prefix list that names no
+   prefix in scope ("xs") changes nothing *)
+Theorem C13_signer_signs_what_verifier_checks_examples :
+  P_Signer.SignerExample.same_si None = true /\ P_Signer.SignerExample.same_si (Some (CanonExc [] false)) = true /\
+  P_Signer.SignerExample.same_si (Some (CanonExc [] true)) = true /\
+  P_Signer.SignerExample.same_si (Some (CanonOther Dsig.alg_rec)) = true /\
+  P_Signer.SignerExample.same_si (Some (CanonOther Dsig.alg_c11_wc)) = true /\
+  P_Signer.SignerExample.same_si (Some (CanonExc ["xs"] false)) = true.
+Proof. exact P_Signer.SignerExample.signer_signs_what_verifier_checks_examples. Qed.
+Print Assumptions C13_signer_signs_what_verifier_checks_examples.
+
+(* the digest input of an exclusive canonicaliser: Canonicalize REWRITES the element and serialises it; the model asks
+   canon_model about the rewritten element el' (a second transformation).  On a built AuthnRequest, for four exclusive
+   configurations: the second transformation is the identity and the digest input is c14n_write el' (on every case of the
+   correspondence run the digest input is compared with the bytes the library hashed) *)
+Theorem C13_digest_input_exclusive_rewrite_idempotent_examples :
+  P_Signer.SignerExample.rewrite_idempotent (Some (CanonExc [] false)) = true /\
+  P_Signer.SignerExample.rewrite_idempotent (Some (CanonExc [] true)) = true /\
+  P_Signer.SignerExample.rewrite_idempotent (Some (CanonExc ["saml"] false)) = true /\
+  P_Signer.SignerExample.rewrite_idempotent (Some (CanonExc ["saml"; "xs"] true)) = true.
+Proof. exact P_Signer.SignerExample.exclusive_rewrite_is_idempotent_examples. Qed.
+Print Assumptions C13_digest_input_exclusive_rewrite_idempotent_examples.
+
+(* (a) is FALSE without "the identifier names the canonicaliser object": exclusive canonicaliser built with the prefix list
+   "saml" (known finding exc-prefix-list).  The signer keeps xmlns:saml on the detached ds:SignedInfo, the verifier drops
+   it: other bytes; the message signed by the modelled signer is rejected *)
+Theorem C13_signer_signs_what_verifier_checks_exc_prefix_list_refuted :
+  exists (r : P_Signer.SignerExample.mrun) (root' : node) (f : Dsig.found_sig) (sib_signer sib_verifier : string),
+    P_Signer.SignerExample.mhonest (Some (CanonExc ["saml"] false)) "id-1" = Some r /\
+    P_SignVerify.signable (P_Signer.SignerExample.m_el' r) = true /\
+    In (canon_id (cx_canon (P_Signer.SignerExample.m_cx r))) P_SignVerify.c14n_ids /\
+    Signer.canon_alg_of (cx_canon (P_Signer.SignerExample.m_cx r)) <> Signer.id_alg (canon_id (cx_canon (P_Signer.SignerExample.m_cx r))) /\
+    Dsig.find_signature (P_Signer.SignerExample.m_signed r) = Ok (root', f) /\
+    Signer.signer_si_bytes Canon.canon_model (P_Signer.SignerExample.m_cx r) (P_Signer.SignerExample.m_sm r)
+      (P_Signer.SignerExample.m_el' r) (base64_encode (P_Signer.SignerExample.m_d r)) = Ok sib_signer /\
+    Dsig.canonical_signed_info Canon.canon_model root' f = Ok sib_verifier /\
+    (sib_signer =? sib_verifier)%string = false /\
+    P_Signer.SignerExample.mverify r = Response.DErr.
+Proof. exact P_Signer.SignerExample.exc_prefix_list_signs_other_bytes_refuted. Qed.
+Print Assumptions C13_signer_signs_what_verifier_checks_exc_prefix_list_refuted.
+
+(* (b) C13_sign_verify_accepts with canon := Canon.canon_model and the crypto pair := Signer.signer_crypto: the message
+   signed by the MODELLED signer is accepted by the model of goxmldsig's Validate.  First four premises: the laws of the
+   oracles (as in C13_sign_verify_accepts).  The premise "SignatureValue is over the verifier's SignedInfo bytes" is gone
+   (it is C13_signer_signs_what_verifier_checks).  [sm bytes d p] only NAME what the signer computed (the declared
+   SignatureMethod, the digest input, its digest, the SignedInfo tree its canonicaliser prepared: always defined when
+   ConstructSignature succeeds); the parser round trip stays a premise at exactly two byte strings: the canonical
+   SignedInfo (c14n_write p) re-parses to p, the canonical message re-parses to v. *)
+Theorem C13_sign_verify_accepts_modelled :
+  forall (digest : string -> string -> option string) (sig_ok : Dsig.cert -> string -> string -> string -> bool)
+         (parse_cert : string -> option Dsig.cert) (reparse : string -> option node)
+         (sign : string -> string -> string -> string) (key der : string) (crt : Dsig.cert),
+    (forall m b : string, sig_ok crt m b (sign key m b) = true) ->
+    (forall m b : string, sign key m b <> "") ->
+    parse_cert der = Some crt ->
+    (forall alg b d : string, digest alg b = Some d -> (20 <= String.length d)%nat) ->
+    forall (cx : sign_ctx) (el el' sg signed : node) (now : instant) (sm bytes d : string) (p v : node),
+      Signer.construct_signature_modelled Canon.canon_model digest sign cx el = ORet (Ok (el', sg)) ->
+      sign_placement el' sg = ORet (Ok signed) ->
+      P_SignVerify.signable el' = true ->
+      In (canon_id (cx_canon cx)) P_SignVerify.c14n_ids ->
+      Signer.canon_alg_of (cx_canon cx) = Signer.id_alg (canon_id (cx_canon cx)) ->
+      ctx_certs (cx_keys cx) = Ok [der] -> der <> "" ->
+      ctx_signing_key (cx_keys cx) = Some (Ok key) ->
+      Dsig.cert_valid_at crt now = true ->
+      P_SignVerify.declared_method cx = Some sm ->
+      Signer.signer_digest_input Canon.canon_model cx el' = Some bytes ->
+      digest (digest_id (cx_hash cx)) bytes = Some d ->
+      P_Signer.signer_si_prepared cx sm el' (base64_encode d) = Ok p ->
+      reparse (Canon.c14n_write p) = Some p ->
+      reparse bytes = Some v ->
+      Dsig.dsig_validate Canon.canon_model digest sig_ok parse_cert reparse [crt] now signed = Response.DOk v.
+Proof. exact P_Signer.sign_verify_accepts_modelled. Qed.
+Print Assumptions C13_sign_verify_accepts_modelled.
+
+(* Sign{AuthnRequest,LogoutRequest,LogoutResponse} with the modelled signer = SigningContext, ConstructSignature with the
+   modelled pair, re-assembly: (a) and (b) apply to its result *)
+Theorem C13_sign_verify_sign_element_modelled_steps :
+  forall (canon : Dsig.canon_alg -> node -> option string) (digest : string -> string -> option string)
+         (sign : string -> string -> string -> string) (cfg : bcfg) (k : keycfg) (el signed : node),
+    Signer.sign_element_modelled canon digest sign cfg k el = ORet (Ok signed) ->
+    exists (cx : sign_ctx) (el' sg : node),
+      signing_context cfg k = ORet (Ok cx) /\
+      Signer.construct_signature_modelled canon digest sign cx el = ORet (Ok (el', sg)) /\
+      sign_placement el' sg = ORet (Ok signed).
+Proof. exact P_Signer.sign_element_modelled_inv. Qed.
+Print Assumptions C13_sign_verify_sign_element_modelled_steps.
+
+(* non-vacuity of (b): function oracles satisfying the four laws (P_SignVerify.SVExample), canonicaliser = canon_model; a
+   built AuthnRequest signed by Signer.construct_signature_modelled is accepted, the verified element being the built one:
+   BY APPLYING the theorem (every premise discharged), and by evaluation for c14n 1.1, exc-c14n with and without comments,
+   c14n 1.0 with and without comments; sign_element_modelled returns that very tree *)
+Theorem C13_sign_verify_accepts_modelled_nonvacuous :
+  (P_Signer.SignerExample.mhonest None "id-1" = Some P_Signer.SignerExample.m1 /\
+   P_Signer.SignerExample.mverify P_Signer.SignerExample.m1 = Response.DOk (P_Signer.SignerExample.m_el' P_Signer.SignerExample.m1)) /\
+  P_SignVerify.SVExample.is_ok_of (P_Signer.SignerExample.moutcome None "id-1") = true /\
+  P_SignVerify.SVExample.is_ok_of (P_Signer.SignerExample.moutcome (Some (CanonExc [] false)) "id-1") = true /\
+  P_SignVerify.SVExample.is_ok_of (P_Signer.SignerExample.moutcome (Some (CanonExc [] true)) "id-1") = true /\
+  P_SignVerify.SVExample.is_ok_of (P_Signer.SignerExample.moutcome (Some (CanonOther Dsig.alg_rec)) "id-1") = true /\
+  P_SignVerify.SVExample.is_ok_of (P_Signer.SignerExample.moutcome (Some (CanonOther Dsig.alg_rec_wc)) "id-1") = true /\
+  match P_Signer.SignerExample.mhonest None "id-1" with
+  | Some r => Signer.sign_element_modelled Canon.canon_model P_SignVerify.SVExample.t_digest P_SignVerify.SVExample.t_sign
+                (P_SignVerify.SVExample.cfg0 None) P_SignVerify.SVExample.keys0 (P_Signer.SignerExample.m_el r)
+              = ORet (Ok (P_Signer.SignerExample.m_signed r))
+  | None => False
+  end.
+Proof.
+  exact (conj P_Signer.SignerExample.modelled_accepted_by_theorem
+        (conj P_Signer.SignerExample.modelled_accepted_c11 (conj P_Signer.SignerExample.modelled_accepted_exc
+        (conj P_Signer.SignerExample.modelled_accepted_exc_comments (conj P_Signer.SignerExample.modelled_accepted_rec
+        (conj P_Signer.SignerExample.modelled_accepted_rec_with_comments P_Signer.SignerExample.modelled_sign_element)))))).
+Qed.
+Print Assumptions C13_sign_verify_accepts_modelled_nonvacuous.
+
+(* (c) DigestValue is base64 (digest (the canonicaliser's bytes for the WHOLE element handed to the signer, as the
+   canonicaliser left it)) -- the Signature is inserted afterwards, and is what the verifier's enveloped-signature transform
+   removes again (C13_sign_verify_reads_declared: transform yields exactly el') -- for every oracle; and elements with
+   different canonical bytes have different digest inputs *)
+Theorem C13_digest_covers_whole_message :
+  forall (canon : Dsig.canon_alg -> node -> option string) (digest : string -> string -> option string)
+         (sign : string -> string -> string -> string) (cx : sign_ctx),
+    (forall (el' : node) (dv sv : string),
+       Signer.signer_crypto canon digest sign cx el' = Ok (dv, sv) ->
+       exists bytes d : string,
+         Signer.signer_digest_input canon cx el' = Some bytes /\
+         canon (Signer.canon_alg_of (cx_canon cx)) el' = Some bytes /\
+         digest (digest_id (cx_hash cx)) bytes = Some d /\ dv = base64_encode d) /\
+    (forall (e1 e2 : node) (b1 b2 : string),
+       Signer.signer_digest_input canon cx e1 = Some b1 -> Signer.signer_digest_input canon cx e2 = Some b2 ->
+       canon (Signer.canon_alg_of (cx_canon cx)) e1 <> canon (Signer.canon_alg_of (cx_canon cx)) e2 -> b1 <> b2).
+Proof.
+  exact (fun canon digest sign cx =>
+           conj (P_Signer.digest_value_covers_whole_element canon digest sign cx) (P_Signer.digest_input_differs canon cx)).
+Qed.
+Print Assumptions C13_digest_covers_whole_message.
+
+(* (c), the non-trivial direction, PARTIAL: the digest input (canon_model) determines every attribute value and every
+   character-data token.  Stated on the trees the canonicaliser PREPARED (Canon.canon_prep: attributes sorted, declarations
+   dropped / moved, comments dropped; that it never alters a value is not proved here): two messages whose prepared trees have
+   the same shape (P_Signer.same_shape: element names, attribute names, kinds of tokens; comments / processing instructions /
+   directives equal), whose values are XML text and whose character-data tokens are not adjacent (P_Signer.plain_values),
+   and whose digest inputs are EQUAL, are equal in every attribute value and text.  (Escape injectivity: P_Canon.) *)
+Theorem C13_digest_input_determines_values_partial :
+  forall (cx : sign_ctx) (e1 e2 p1 p2 : node),
+    Canon.canon_prep (Signer.canon_alg_of (cx_canon cx)) e1 = Some p1 ->
+    Canon.canon_prep (Signer.canon_alg_of (cx_canon cx)) e2 = Some p2 ->
+    P_Signer.same_shape p1 p2 -> P_Signer.plain_values p1 = true -> P_Signer.plain_values p2 = true ->
+    Signer.signer_digest_input Canon.canon_model cx e1 = Signer.signer_digest_input Canon.canon_model cx e2 ->
+    p1 = p2.
+Proof. exact P_Signer.digest_input_determines_values_partial. Qed.
+Print Assumptions C13_digest_input_determines_values_partial.
+
+(* the canonical serialisation itself is injective on trees of one shape *)
+Theorem C13_digest_canonical_bytes_determine_values :
+  forall n m : node,
+    P_Signer.same_shape n m -> P_Signer.plain_values n = true -> P_Signer.plain_values m = true ->
+    Canon.c14n_write n = Canon.c14n_write m -> n = m.
+Proof. exact P_Signer.c14n_write_determines_values. Qed.
+Print Assumptions C13_digest_canonical_bytes_determine_values.
+
+(* examples for (c): the DigestValue of the accepted run is base64 (digest (canon_model of the whole element)); two
+   AuthnRequests differing in ONE character of AssertionConsumerServiceURL satisfy every premise of the partial theorem
+   except equality, and have different digest inputs *)
+Theorem C13_digest_covers_whole_message_examples :
+  (exists sv : string,
+     Signer.signer_crypto Canon.canon_model P_SignVerify.SVExample.t_digest P_SignVerify.SVExample.t_sign
+       (P_Signer.SignerExample.m_cx P_Signer.SignerExample.m1) (P_Signer.SignerExample.m_el' P_Signer.SignerExample.m1)
+     = Ok (base64_encode (P_Signer.SignerExample.m_d P_Signer.SignerExample.m1), sv) /\
+     Canon.canon_model (Signer.canon_alg_of (cx_canon (P_Signer.SignerExample.m_cx P_Signer.SignerExample.m1)))
+       (P_Signer.SignerExample.m_el' P_Signer.SignerExample.m1) = Some (P_Signer.SignerExample.m_bytes P_Signer.SignerExample.m1) /\
+     P_SignVerify.SVExample.t_digest (digest_id (cx_hash (P_Signer.SignerExample.m_cx P_Signer.SignerExample.m1)))
+       (P_Signer.SignerExample.m_bytes P_Signer.SignerExample.m1) = Some (P_Signer.SignerExample.m_d P_Signer.SignerExample.m1)) /\
+  (exists p1 p2 : node,
+     Canon.canon_prep (Signer.canon_alg_of (cx_canon P_Signer.DigestExample.cx0)) P_Signer.DigestExample.el_a = Some p1 /\
+     Canon.canon_prep (Signer.canon_alg_of (cx_canon P_Signer.DigestExample.cx0)) P_Signer.DigestExample.el_b = Some p2 /\
+     P_Signer.same_shape p1 p2 /\ P_Signer.plain_values p1 = true /\ P_Signer.plain_values p2 = true /\ p1 <> p2 /\
+     Signer.signer_digest_input Canon.canon_model P_Signer.DigestExample.cx0 P_Signer.DigestExample.el_a <>
+     Signer.signer_digest_input Canon.canon_model P_Signer.DigestExample.cx0 P_Signer.DigestExample.el_b).
+Proof. exact (conj P_Signer.DigestExample.digest_value_of_m1 P_Signer.DigestExample.one_character_changes_digest_input). Qed.
+Print Assumptions C13_digest_covers_whole_message_examples.
+
 (* ---- which key signs: getSignerCert / getSigningCert as translated from /repo's saml.go on this run ---- *)
 From V Require Import Keys GenPrelude GenFuncs P_GenKeys.
 Theorem C13_source_signer_selection_is_the_model : forall c now,
@@ -532,4 +744,5 @@ Theorem C13_source_signed_documents_are_the_model : forall pk_of key_name crypto
    end).
 Proof. exact signed_documents_tie. Qed.
 Print Assumptions C13_source_signed_documents_are_the_model.
+
 
